@@ -19,7 +19,9 @@ CONSTANTS Procs,        \* e.g. {1, 2}
           ContentsC,    \* catalogue ids of the objects' texts
           MaxProg,      \* program length
           Buffers,
-          Shared        \* TRUE: all processes use one shared object; FALSE: each its own
+          Shared,       \* TRUE: all processes use one shared object; FALSE: each its own
+          Prechecked    \* (Shared only) TRUE: the object's first Check() has returned before the processes start;
+                        \* FALSE: the processes race for the first, compiling call
 
 NeedsBuffers(op) == op \in {"Example","OpenAPI"}
 Progs == UNION {[1..n -> OpsC] : n \in 1..MaxProg}
@@ -43,8 +45,8 @@ Init == /\ prog \in [Procs -> Progs]
         /\ Shared => \A p, q \in Procs : obj[p] = obj[q]
         /\ pc = [p \in Procs |-> "idle"] /\ ip = [p \in Procs |-> 1]
         /\ bufs = [p \in Procs |-> {}] /\ free = {} /\ born = {}
-        \* clause 2: the shared object's first Check() has already returned
-        /\ once = [k \in Keys |-> IF Shared THEN "done" ELSE "new"]
+        \* clause 2: one shared object - either already checked, or fresh (the first call compiles it while the others wait)
+        /\ once = [k \in Keys |-> IF Shared /\ Prechecked THEN "done" ELSE "new"]
         /\ owner = [k \in Keys |-> 0]
         /\ results = [p \in Procs |-> <<>>]
 
@@ -103,5 +105,5 @@ AllFinish == <>(\A p \in Procs : ip[p] > Len(prog[p]))
 
 \* emission of the work assignments (initial states)
 Fresh == \A p \in Procs : pc[p] = "idle" /\ ip[p] = 1
-EmitWork == Fresh => PrintT(ToJson([shared |-> Shared, progs |-> [p \in Procs |-> prog[p]], objs |-> [p \in Procs |-> obj[p]]]))
+EmitWork == Fresh => PrintT(ToJson([shared |-> Shared, prechecked |-> Prechecked, progs |-> [p \in Procs |-> prog[p]], objs |-> [p \in Procs |-> obj[p]]]))
 ===============================================================================
